@@ -1,5 +1,5 @@
 CONFIG = {
-    'subs': ['Parse'],
+    'subs': ['Parse', 'StrToNum'],
     'props_modules': ['DmlcModel.Props.C12'],
     'driver': 'Parse',
     'harness': {'name': 'parsers',
